@@ -16,7 +16,8 @@ LEVEL = "exploration"
 ANCHORS = ("ladim/timekeeper.py",)
 RULE = ("three kinds of seeded cases: (clock) the real TimeKeeper constructed from start/stop/reference on a one-second "
         "lattice, dt dividing or not dividing the duration, both directions, dt spelled as int / timedelta64 / "
-        "timedelta / [value, unit] / ISO string, then stepped through update() for every step and compared with an "
+        "timedelta / [value, unit] / ISO string, then stepped through update() for every step (in a third of the cases "
+        "after being positioned at step 0 the way Model does it for a warm start) and compared with an "
         "integer-second reference clock (time, step, Nsteps, nctime in s/m/h/d, step2time, time2step round trip incl. "
         "negative steps, step2nctime, step2isotime, cf_units); (spell) whole runs whose time.dt, output.output_period "
         "and release.release_frequency are spelled in every accepted way must give identical records; (malformed) "
@@ -27,7 +28,8 @@ COMPONENTS = {"real": ["TimeKeeper", "normalize_period", "configure", "Model sta
 ASSUMPTIONS = ["malformed = the catalogue in MALFORMED (strings that are not PTxHyMzS, lists that are not [int, unit])"]
 TIERS = {"quick": dict(runs=3000, budget_s=40, shrink=60),
          "thorough": dict(runs=300000, budget_s=600, shrink=100)}
-REQUIRED_PROBES = ["clock_reversed", "clock_forward", "dt_not_dividing", "spell_run", "malformed_refused"]
+REQUIRED_PROBES = ["clock_reversed", "clock_forward", "dt_not_dividing", "clock_repositioned", "spell_run",
+                   "malformed_refused"]
 MALFORMED = ["PT", "PT5", "5S", "PT5X", "PTS", "P5S", "PT5S3", "five", "PT1M2H", [], [5], [5, "s", 7],
              [5, "furlongs"], {"seconds": 5}, [10, "M"], [1, "Y"]]
 UNITS = {"s": 1, "m": 60, "h": 3600, "D": 86400}
@@ -53,7 +55,10 @@ def generate(seed: int, tier: str, idx: int) -> dict:
         spell = s.pick(["int", "td64", "timedelta", "list_s", "iso"] + (["list_m"] if dt % 60 == 0 else [])
                        + (["list_h"] if dt % 3600 == 0 else []))
         return {"plan": {"kind": "clock", "start": start, "dt": dt, "nsteps": nst, "extra": extra, "reversed": rev,
-                         "reference": ref, "dt_spelling": spell, "start_form": s.pick(["iso", "dt64", "datetime"])}}
+                         "reference": ref, "dt_spelling": spell, "start_form": s.pick(["iso", "dt64", "datetime"]),
+                         # the clock positioned from outside the way Model.__init__ does it for a warm start
+                         # (step = 0; time = step2time(0)) after this many updates, then stepped on; -1: never
+                         "reposition_after": s.randint(0, nst + 1) if s.chance(0.35) else -1}}
     sc = gen.gen_scenario(seed, RUN_PROFILE)
     sc.pop("spell", None)
     if kind == "spell":
@@ -76,6 +81,8 @@ def features(sc) -> set[str]:
         if pl["reference"] is not None:
             f.add("reference")
         f.add("dt_" + pl["dt_spelling"])
+        if pl.get("reposition_after", -1) >= 0:
+            f.add("repositioned")
     else:
         f |= gen.features(sc)
         if pl["kind"] == "malformed":
@@ -96,6 +103,11 @@ def base_reductions(sc):
             c = copy.deepcopy(sc)
             c["plan"][key] = val
             yield f"{key}", c
+    if pl.get("reposition_after", -1) >= 0:
+        for m in sorted({-1, 0, pl["reposition_after"] // 2} - {pl["reposition_after"]}):
+            c = copy.deepcopy(sc)
+            c["plan"]["reposition_after"] = m
+            yield f"reposition{m}", c
     if pl["nsteps"] > 1:
         for m in sorted({pl["nsteps"] // 2, pl["nsteps"] - 1}):
             c = copy.deepcopy(sc)
@@ -185,7 +197,20 @@ def execute_clock(sc) -> Result:
     if not ok_units:
         bad("C13.nctime", None, "cf_units", got_units, want_units)
     try:
-        for n in range(0, nst + 2):
+        repos = pl.get("reposition_after", -1)
+        if repos is not None and repos >= 0:
+            for _ in range(repos):
+                tk.update()
+            # Model.__init__, warm start: the same two assignments, then the time loop calls update()
+            tk.step = 0
+            tk.time = tk.step2time(tk.step)
+            res.probes["clock_repositioned"] += 1
+            first = 1
+            if np.datetime64(tk.time, "s") != t(start):
+                bad("C13.clock", 0, "time after positioning at step 0", str(tk.time), str(t(start)))
+        else:
+            first = 0
+        for n in range(first, nst + 2):
             tk.update()
             want = t(start + sg * n * dt)
             res.feed(int(tk.step), str(tk.time))
